@@ -1679,3 +1679,446 @@ def scan_package(root=None, max_rounds=10):
             break
         summ = {"fresh": fresh2, "writes": writes2, "tuple": tuple2}
     return result
+
+
+# sites the ownership analysis does not accept on its own.  (file, function, prefix of the normalised statement, class, reason)
+#   'python-object' : the target is a python str / bool / int / list / dict, not array memory (outside the statement)
+#   'modelled'      : an array write whose ownership rests on a fact the syntax does not show; the fact is named, the data
+#                     flow is in GSV/Model/Heap.lean and the dynamic sweep checks it
+SITE_TABLE = [
+    ("covmodel/base.py", "CovModel.__init_subclass__", "cls.__doc__ +=", "python-object", "string concatenation on the class docstring"),
+    ("covmodel/fit.py", "fit_variogram", "anis &= is_dir_vario", "python-object", "bool"),
+    ("covmodel/fit.py", "fit_variogram", "_pre_para(", "python-object", "para_select is a dict of bools"),
+    ("covmodel/fit.py", "fit_variogram", "_pre_init_guess(", "python-object", "init_guess is a dict of floats / strings"),
+    ("covmodel/fit.py", "fit_variogram", "_set_weights(", "python-object", "curve_fit_kwargs is a dict (the caller's dict gets extra keys)"),
+    ("covmodel/fit.py", "_pre_para", "para_select[par] = False", "python-object", "dict of bools"),
+    ("covmodel/fit.py", "_pre_init_guess", "init_guess[", "python-object", "dict of floats / strings"),
+    ("covmodel/fit.py", "_set_weights", "curve_fit_kwargs[", "python-object", "dict"),
+    ("covmodel/tools.py", "set_opt_args", "opt_arg[def_arg] =", "python-object", "dict of optional arguments (the **kwargs of the constructor)"),
+    ("covmodel/tools.py", "set_arg_bounds", "model._opt_arg_bounds[arg] =", "python-object", "dict owned by the model"),
+    ("field/base.py", "Field.get_store_config", "_names(", "python-object", "list of names"),
+    ("field/base.py", "Field.get_store_config", "store += [True]", "python-object", "`store = list(store)[:fld_cnt]` is a new list"),
+    ("field/tools.py", "generate_on_mesh", "_names(", "python-object", "list of names"),
+    ("field/tools.py", "generate_on_mesh", "mesh[f_name] = field", "python-object", "documented: stores the field in the given pyvista mesh"),
+    ("field/tools.py", "generate_on_mesh", "mesh.cell_data[f_name] =", "python-object", "documented: stores the field in the given meshio mesh (dict)"),
+    ("field/tools.py", "generate_on_mesh", "mesh.point_data[f_name] =", "python-object", "documented: stores the field in the given meshio mesh (dict)"),
+    ("field/tools.py", "_names", "name += [", "python-object", "`name` was re-bound to a new list on the line before"),
+    ("krige/base.py", "Krige.__call__", "return_var &= not only_mean", "python-object", "bool"),
+    ("krige/base.py", "Krige._get_krige_vecs", "chunk_size -= chunk_slice[0]", "python-object", "int"),
+    ("tools/export.py", "_vtk_structured_helper", "fields[field] =", "python-object", "dict of arrays: entries are re-bound to reshaped views, no array is written"),
+    ("tools/export.py", "_vtk_unstructured_helper", "fields[field] =", "python-object", "dict of arrays: entries are re-bound to reshaped views, no array is written"),
+    ("tools/export.py", "to_vtk_structured", "_vtk_structured_helper(", "python-object", "dict"),
+    ("tools/export.py", "vtk_export_structured", "_vtk_structured_helper(", "python-object", "dict"),
+    ("tools/export.py", "to_vtk_unstructured", "_vtk_unstructured_helper(", "python-object", "dict"),
+    ("tools/export.py", "vtk_export_unstructured", "_vtk_unstructured_helper(", "python-object", "dict"),
+    ("field/srf.py", "SRF.__call__", "field *= np.sqrt(scaled_var / self.model.sill)", "modelled",
+     "`field = np.reshape(self.generator(iso_pos), shape)`: the generator object's __call__ returns a new array "
+     "(RandMeth / IncomprRandMeth / Fourier __call__ are in the dynamic sweep); Lean: pSrfCall `.augName V.f`"),
+]
+
+
+def classify_sites(sites):
+    """-> (records with 'class', list of unresolved records, unused table rows)"""
+    used = set()
+    unresolved = []
+    for s in sites:
+        if s["safe"]:
+            s["class"] = "proved-by-analysis"
+            continue
+        hit = None
+        for i, (rel, fn, pre, cls, why) in enumerate(SITE_TABLE):
+            if s["rel"] == rel and s["func"] == fn and s["text"].startswith(pre):
+                hit = i
+                break
+        if hit is None and s["params"] and s["private"]:
+            s["class"] = "helper-writes-parameter(call sites checked)"
+            continue
+        if hit is None:
+            s["class"] = "UNRESOLVED"
+            unresolved.append(s)
+        else:
+            used.add(hit)
+            s["class"] = SITE_TABLE[hit][3]
+            s["reason"] = SITE_TABLE[hit][4]
+    stale = [SITE_TABLE[i][:3] for i in range(len(SITE_TABLE)) if i not in used]
+    return sites, unresolved, stale
+
+
+def static_scan(ctx=None, root=None):
+    sites, stats = scan_package(root)
+    sites, unresolved, stale = classify_sites(sites)
+    dist = {}
+    for s in sites:
+        dist[s["class"]] = dist.get(s["class"], 0) + 1
+    dis = [{"what": f"static scan: unmodelled in-place site {s['rel']}::{s['func']}:{s['line']}: {s['text']} ({s['what']})",
+            "site": {k: s[k] for k in ("rel", "func", "line", "text", "what", "params")}} for s in unresolved]
+    return {"sites": sites, "stats": stats, "distribution": dist, "disagreements": dis, "stale_table_rows": stale}
+
+
+# ----------------------------------------------------------------------------------------------------------------
+# primitives: the modelled numpy rules against numpy
+# ----------------------------------------------------------------------------------------------------------------
+def _kinds():
+    base = np.arange(12.0).reshape(3, 4)
+    msk = np.zeros((3, 4), bool)
+    msk[0, 1] = True
+    return [
+        ("f64C", lambda: base.copy()),
+        ("f64F", lambda: np.asfortranarray(base)),
+        ("f64strided", lambda: np.arange(24.0).reshape(3, 8)[:, ::2]),
+        ("f64T", lambda: np.arange(12.0).reshape(4, 3).T),
+        ("i64", lambda: np.arange(12).reshape(3, 4)),
+        ("f32", lambda: base.astype(np.float32)),
+        ("list", lambda: base.tolist()),
+        ("maF64", lambda: np.ma.array(base.copy(), mask=msk.copy())),
+        ("maF64nomask", lambda: np.ma.array(base.copy())),
+        ("maI64", lambda: np.ma.array(np.arange(12).reshape(3, 4), mask=msk.copy())),
+        ("maF32", lambda: np.ma.array(base.astype(np.float32), mask=msk.copy())),
+        ("pyfloat", lambda: 1.5),
+        ("npfloat", lambda: np.float64(1.5)),
+    ]
+
+
+def _d(x):
+    return np.asarray(x, dtype=np.double)
+
+
+def _prims():
+    """(name, python action(x) -> result or None, Lean program on variables 0 (= x) and 1.., applies to kinds)"""
+    newmask = np.zeros((3, 4), bool)
+    newmask[2, 2] = True
+    arr = lambda k: k not in ("pyfloat", "npfloat")           # noqa: E731
+    nd = lambda k: k not in ("pyfloat", "npfloat", "list")    # noqa: E731
+
+    def op(k, a=0, b=0, c=False):
+        return {"k": k, "a": a, "b": b, "c": c}
+
+    def list_item(x):
+        lst = [_d(x)]
+        lst[0] += 1.0
+        return lst[0]
+
+    def aug(x):
+        a = _d(x)
+        a += 1.0
+        return a
+
+    def aug_scalar(x):
+        r = 1.0
+        r *= _d(x)
+        return r
+
+    def setitem(x):
+        a = _d(x)
+        a[0] = 5.0
+        return a
+
+    def setmask(x):
+        m = np.ma.array(x, ndmin=1, dtype=np.double)
+        m.mask = np.logical_or(np.ma.getmaskarray(m), newmask)
+        return m
+
+    def setmask_copy(x):
+        m = np.ma.array(x, ndmin=1, dtype=np.double, copy=True)
+        m.mask = np.logical_or(np.ma.getmaskarray(m), newmask)
+        return m
+
+    return [
+        ("asarray", _d, [op("asarray", 1, 0), op("ret", 1)], lambda k: True),
+        ("asarray.reshape(-1)", lambda x: _d(x).reshape(-1), [op("asarray", 1, 0), op("reshape", 1, 1), op("ret", 1)], arr),
+        ("np.reshape(same shape)", lambda x: np.reshape(_d(x), (3, 4)), [op("asarray", 1, 0), op("view", 1, 1, True), op("ret", 1)], arr),
+        ("np.array", lambda x: np.array(x, dtype=np.double), [op("copy", 1, 0), op("ret", 1)], lambda k: True),
+        ("atleast_2d(asarray)", lambda x: np.atleast_2d(_d(x)), [op("asarray", 1, 0), op("view", 1, 1, True), op("ret", 1)], lambda k: True),
+        ("row view", lambda x: _d(x)[1], [op("asarray", 1, 0), op("view", 1, 1, True), op("ret", 1)], arr),
+        ("swapaxes", lambda x: _d(x).swapaxes(0, 1), [op("asarray", 1, 0), op("view", 1, 1, False), op("ret", 1)], arr),
+        ("boolean index", lambda x: _d(x)[_d(x) > 3.0], [op("asarray", 1, 0), op("fresh", 1), op("ret", 1)], arr),
+        ("arithmetic", lambda x: _d(x) / 2.0, [op("asarray", 1, 0), op("fresh", 1), op("ret", 1)], lambda k: True),
+        ("ufunc", lambda x: np.abs(_d(x)), [op("asarray", 1, 0), op("fresh", 1), op("ret", 1)], lambda k: True),
+        ("[x][0] += 1", list_item, [op("asarray", 1, 0), op("wrapList", 2, 1), op("setItem", 2), op("ret", 1)], arr),
+        ("a += 1", aug, [op("asarray", 1, 0), op("augName", 1), op("ret", 1)], arr),
+        ("r = 1.0; r *= a", aug_scalar, [op("asarray", 1, 0), op("scalar", 2), op("augName", 2), op("ret", 2)], arr),
+        ("a[0] = 5", setitem, [op("asarray", 1, 0), op("setItem", 1), op("ret", 1)], arr),
+        ("ma.array", lambda x: np.ma.array(x, ndmin=1, dtype=np.double), [op("maArray", 1, 0), op("ret", 1)], nd),
+        ("ma.array(copy=True)", lambda x: np.ma.array(x, ndmin=2, dtype=np.double, copy=True), [op("maCopy", 1, 0), op("ret", 1)], nd),
+        ("ma.array; .mask = m", setmask, [op("maArray", 1, 0), op("setMask", 1), op("ret", 1)], nd),
+        ("ma.array(copy=True); .mask = m", setmask_copy, [op("maCopy", 1, 0), op("setMask", 1), op("ret", 1)], nd),
+        ("ma.array.filled()", lambda x: np.ma.array(x, dtype=np.double).filled(), [op("maArray", 1, 0), op("filled", 1, 1), op("ret", 1)], nd),
+        ("ma.array(copy=True).filled()", lambda x: np.ma.array(x, dtype=np.double, copy=True).filled(),
+         [op("maCopy", 1, 0), op("filled", 1, 1), op("ret", 1)], nd),
+    ]
+
+
+def primitive_correspondence():
+    ops, meta = [], []
+    for kname, mkx in _kinds():
+        for pname, act, prog, applies in _prims():
+            if not applies(kname):
+                continue
+            x = mkx()
+            blocks = parts("x", x)
+            ids = {n: i for i, (n, _) in enumerate(blocks)}
+            if isinstance(x, np.ma.MaskedArray):
+                obj = {"key": 0, "bufs": [ids["x"]], "mask": [ids["x.mask"]] if "x.mask" in ids else [], "f64": x.dtype == np.float64}
+                base = np.ma.getdata(x)
+            elif isinstance(x, np.ndarray):
+                obj = {"key": 0, "bufs": [0], "mask": [], "f64": x.dtype == np.float64}
+                base = x
+            else:
+                obj = {"key": 0, "bufs": [], "mask": [], "f64": False}
+                base = None
+            obj["f64"] = bool(obj["f64"])
+            obj["view"] = bool(base is None or shares(base, base.reshape(-1)))
+            before = {n: snap(a) for n, a in blocks}
+            with warnings.catch_warnings():
+                warnings.simplefilter("ignore")
+                res = act(x)
+            mutated = sorted(n for n, a in blocks if snap(a) != before[n])
+            rparts = [p for _, p in parts("r", res)] if isinstance(res, np.ndarray) else []
+            alias = sorted(n for n, a in blocks if any(shares(p, a) for p in rparts))
+            ops.append({"op": "heap_prog", "prog": prog, "next": len(blocks), "env": [obj], "attrs": []})
+            meta.append((kname, pname, mutated, alias, {i: n for n, i in ids.items()}))
+    res = run_driver(ops)
+    dis, dist, samples = [], {}, []
+    for (kname, pname, mutated, alias, names), r in zip(meta, res):
+        if isinstance(r, dict) and "error" in r:
+            dis.append({"what": f"primitive {pname} on {kname}: driver error {r['error']}"})
+            continue
+        pm = sorted(names[i] for i in r["written"])
+        ret = r["rets"][-1] if r["rets"] else {"bufs": [], "mask": []}
+        pa = sorted(names[i] for i in set(ret["bufs"]) | set(ret["mask"]) if i in names)
+        key = ("aliases" if alias else "new") + ("+writes" if mutated else "")
+        dist[key] = dist.get(key, 0) + 1
+        if len(samples) < 4 and (alias or mutated):
+            samples.append({"primitive": pname, "object": kname, "result_aliases": alias, "mutated": mutated})
+        if pm != mutated or pa != alias:
+            dis.append({"what": f"numpy rule '{pname}' on {kname}: model (mutated {pm}, aliases {pa}) vs numpy (mutated {mutated}, aliases {alias})"})
+    return len(meta), dis, dist, samples
+
+
+# ----------------------------------------------------------------------------------------------------------------
+# tie B
+# ----------------------------------------------------------------------------------------------------------------
+def correspondence(ctx):
+    rng = np.random.RandomState(ctx.seed + 20)
+    dis = []
+    # 1. static scan (the source decides which programs the Lean analysis sees)
+    scan = static_scan(ctx)
+    dis += scan["disagreements"]
+    ctx.log(f"static scan: {len(scan['sites'])} in-place sites in {scan['stats']['functions']} functions, classes {scan['distribution']}")
+    # 2. numpy rules
+    n_prim, d_prim, dist_prim, s_prim = primitive_correspondence()
+    dis += d_prim
+    # 3. entry points
+    cases = all_cases(rng, LAYOUTS, full=not ctx.quick)
+    recs, d_ep, viol = run_cases(cases)
+    dis += d_ep
+    ctx.c20_violations = viol
+    dist = {"sites": scan["distribution"], "primitives": dist_prim, "entry_points": {}, "layouts": {}, "errors": {}}
+    distinct = set()
+    for r in recs:
+        dist["entry_points"][r["ep"]] = dist["entry_points"].get(r["ep"], 0) + 1
+        for k, v in r["layouts"].items():
+            if k in ("field", "pos", "all", "data", "pointVol"):
+                dist["layouts"][str(v)] = dist["layouts"].get(str(v), 0) + 1
+        if r["error"]:
+            e = r["error"].split(":")[0]
+            dist["errors"][e] = dist["errors"].get(e, 0) + 1
+        if r["aliases"] or any(r["cfg"].get(k) for k in ("process", "latlon", "upscale", "missing", "noData", "fitVario", "condErrArr", "extDrift")):
+            distinct.add((r["ep"], tuple(sorted(r["cfg"].items())), tuple(sorted((k, str(v)) for k, v in r["layouts"].items())),
+                          tuple(r["aliases"])))
+    dist["scan_stats"] = scan["stats"]
+    dist["stale_site_table_rows"] = scan["stale_table_rows"]
+    samples = [{"entry": r["entry"], "cfg": r["cfg"], "layouts": r["layouts"], "aliases": r["aliases"], "mutated": r["mutated"]}
+               for r in recs if r["aliases"]][:3] + s_prim[:2]
+    return {"evaluations": len(recs) + n_prim + len(scan["sites"]), "distinct_nontrivial": len(distinct) + sum(
+                1 for s in scan["sites"] if s["class"] != "python-object"),
+            "rule": "cases = every modelled public entry point x caller role x layout {float64 C-contiguous exact shape (aliasing possible), "
+                    "int64, float32, list, strided float64 view, MaskedArray with/without mask} x option combinations (mean/trend/normalizer, "
+                    "process, store name, latlon+geo_scale, masks, no_data, sampling, directions, ext. drift, cond_err arrays, fit flags), each "
+                    "executed on the real API with byte snapshots and np.shares_memory on every output and compared with the Lean program's "
+                    "written buffers and output aliasing; + every modelled numpy rule x object class; + every in-place site of the package, "
+                    "translated and judged by the Lean analysis.  distinct & non-trivial = distinct (entry point, configuration, layouts, "
+                    "observed aliasing pattern) where an output aliases an input/stored array or an in-place-enabling option is on, "
+                    "plus the in-place sites that touch array memory",
+            "samples": samples, "disagreements": dis[:20], "distribution": dist}
+
+
+# ----------------------------------------------------------------------------------------------------------------
+# implementation-side search
+# ----------------------------------------------------------------------------------------------------------------
+class Held:
+    """every array object the 'caller' has ever passed, received or seen stored must keep its bytes for ever"""
+
+    def __init__(self):
+        self.items = []
+
+    def add(self, label, x):
+        for n, a in parts(label, x):
+            if not any(a is b for _, b, _ in self.items):
+                self.items.append((n, a, snap(a)))
+
+    def changed(self):
+        out = []
+        for i, (n, a, s0) in enumerate(self.items):
+            s1 = snap(a)
+            if s1 != s0:
+                out.append(n)
+                self.items[i] = (n, a, s1)
+        return out
+
+
+def history_search(ctx, n_hist, length):
+    gs = _gs()
+    rng = np.random.RandomState(ctx.seed + 2020)
+    viol, ev = [], 0
+    methods = ["binary", "discrete", "boxcox", "zinnharvey", "normal_force_moments", "normal_to_lognormal", "normal_to_uniform",
+               "normal_to_arcsin", "normal_to_uquad", "function"]
+    for h in range(n_hist):
+        opt = norm_options(True)[int(rng.randint(5))]
+        if rng.rand() < 0.3:
+            opt = {"name": "const-mean", "mean": 1.0}
+        model = gs.Exponential(dim=2, var=2.0, len_scale=3.0, nugget=float(rng.choice([0.0, 0.2])))
+        kw = dict(mean=opt.get("mean"), trend=opt.get("trend"), normalizer=opt.get("normalizer"))
+        srf = gs.SRF(model, seed=int(rng.randint(1 << 20)), mode_no=16, **kw)
+        cp, cv = _pos2(rng, 4), np.round(rng.uniform(4, 9, size=4))
+        kr = gs.krige.Ordinary(model, cp, cv, normalizer=opt.get("normalizer"), trend=opt.get("trend"))
+        cond = gs.CondSRF(kr, seed=int(rng.randint(1 << 20)), mode_no=16)
+        held = Held()
+        held.add("cond_pos", cp)
+        held.add("cond_val", cv)
+        pos = _pos2(rng, 6)
+        held.add("pos", pos)
+        trace = []
+        objs = {"srf": srf, "krige": kr, "cond": cond}
+        for t in range(length):
+            kind = str(rng.choice(["call", "call", "transform", "transform", "transform", "given", "krige", "cond", "newpos"]))
+            oname = str(rng.choice(["srf", "srf", "cond", "krige"]))
+            o = objs[oname]
+            names = list(o.field_names)
+            store = rng.choice([True, False, "a", "b", "c"])
+            store = bool(store == "True") if store in ("True", "False") else str(store)
+            process = bool(rng.rand() < 0.5)
+            step = {"kind": kind, "obj": oname, "store": store, "process": process}
+            try:
+                with warnings.catch_warnings():
+                    warnings.simplefilter("ignore")
+                    if kind == "call":
+                        r = srf(pos, seed=int(rng.randint(100)), post_process=process, store=store)
+                        held.add(f"{t}:srf()", r)
+                    elif kind == "newpos":
+                        pos = _pos2(rng, 6)
+                        held.add(f"{t}:pos", pos)
+                    elif kind == "given":
+                        a = np.round(rng.uniform(1, 4, size=6) * 2) / 2
+                        held.add(f"{t}:given", a)
+                        r = o(pos, field=a, post_process=process, store=store) if oname == "srf" and False else \
+                            gs.field.Field.__call__(o, pos, field=a, post_process=process, store=store)
+                        held.add(f"{t}:Field()", r)
+                    elif kind == "krige":
+                        r = kr(pos, return_var=bool(rng.rand() < 0.7), only_mean=bool(rng.rand() < 0.2), post_process=process,
+                               store=store if isinstance(store, bool) else [store, store + "_var"])
+                        held.add(f"{t}:krige()", r)
+                    elif kind == "cond":
+                        r = cond(pos if rng.rand() < 0.5 else None, seed=int(rng.randint(100)), post_process=process,
+                                 store=store if isinstance(store, bool) else [store, store + "_raw", store + "_rk"])
+                        held.add(f"{t}:cond()", r)
+                    else:
+                        if not names:
+                            continue
+                        fname = str(rng.choice(names))
+                        meth = str(rng.choice(methods))
+                        kw2 = {}
+                        if meth == "discrete":
+                            kw2 = {"values": [0.0, 1.0, 2.0]}
+                        if meth == "boxcox":
+                            kw2 = {"lmbda": 0.5, "shift": 50.0}
+                        if meth == "function":
+                            kw2 = {"function": (lambda x: x) if rng.rand() < 0.3 else (lambda x: x + 1.0)}
+                        if meth == "binary":
+                            kw2 = {"divide": 2.0, "upper": 3.0, "lower": 1.0}
+                        step.update(method=meth, field=fname)
+                        r = o.transform(meth, field=fname, store=store, process=process, **kw2)
+                        held.add(f"{t}:{oname}.transform({meth})", r)
+            except Exception as e:   # noqa: BLE001 - invalid steps are part of the stream
+                step["error"] = type(e).__name__
+            for ob_name, ob in objs.items():
+                for fn in list(ob.field_names):
+                    held.add(f"{t}:{ob_name}.{fn}", ob[fn])
+            trace.append(step)
+            ev += 1
+            ch = held.changed()
+            if ch:
+                viol.append({"key": f"aliasing:history:{step['kind']}" + (f".{step.get('method')}" if step.get("method") else ""),
+                             "what": f"step {t} ({step}) changed earlier arrays {ch[:4]}",
+                             "case": {"options": opt.get("name"), "trace": trace[-6:]}})
+                break
+    return ev, viol
+
+
+def directed(ctx):
+    """past findings, replayed first on every run"""
+    gs = _gs()
+    viol = []
+
+    def check(key, what, arr, fn):
+        before = snap(arr)
+        with warnings.catch_warnings():
+            warnings.simplefilter("ignore")
+            fn()
+        if snap(arr) != before:
+            viol.append({"key": key, "what": what, "case": {"input": np.asarray(np.ma.getdata(arr)).tolist()}})
+    # D2
+    pos = np.array([[10.0, 20.0, 30.0, 40.0], [5.0, 15.0, 25.0, 35.0]])
+    fld = np.array([1.0, 2.0, 4.0, 3.0])
+    bins = np.arange(0.0, 6000.0, 1000.0)
+    check("aliasing:vario_estimate:bins", "vario_estimate(latlon, geo_scale) rescaled the caller's bin_edges", bins,
+          lambda: gs.vario_estimate(pos, fld, bins, latlon=True, geo_scale=gs.KM_SCALE))
+    # D3
+    a = np.array([1.0, 2.0, 3.0])
+    f = gs.field.Field(gs.Gaussian(dim=1), mean=1.0)
+    check("aliasing:Field.__call__:field", "Field.__call__(pos, field=a) with a mean wrote into a", a, lambda: f([0.0, 1.0, 2.0], field=a))
+    srf = gs.SRF(gs.Gaussian(dim=1), trend=lambda x: x, seed=1)
+    stored = srf([0.0, 1.0, 2.0])
+    check("aliasing:transform.normal_to_lognormal:attr:field", "transform(store=new, process=True) rewrote the stored field", stored,
+          lambda: srf.transform("normal_to_lognormal", store="new", process=True))
+    # mask of vario_estimate_axis
+    m = np.ma.array(np.arange(12.0).reshape(3, 4), mask=np.zeros((3, 4), bool))
+    m.mask[0, 0] = True
+    m.data[1, 1] = np.nan
+    check("aliasing:vario_estimate_axis:field.mask", "vario_estimate_axis extended the caller's mask", m, lambda: gs.vario_estimate_axis(m, "x"))
+    # anis of lat-lon models
+    an = np.array([2.0, 3.0, 4.0])
+    check("aliasing:CovModel.anis(latlon):anis", "a lat-lon model overwrote the caller's anis array", an,
+          lambda: gs.Gaussian(latlon=True, temporal=True, anis=an))
+    return 5, viol
+
+
+def search(ctx, deep=False):
+    rng = np.random.RandomState(ctx.seed + 200)
+    ev0, viol = directed(ctx)
+    viol += getattr(ctx, "c20_violations", [])
+    # the sweep again with read-only and Fortran-ordered inputs (a silent `x += 0` on a caller array raises here) and,
+    # in the thorough tier or when something is broken, with every normalizer / model / kriging variant
+    layouts = ["ro", "fortran", "alias"] if ctx.quick and not deep else ["ro", "fortran", "alias", "strided", "i64"]
+    cases = all_cases(rng, layouts, full=(not ctx.quick) or deep)
+    n = 0
+    for c in cases:
+        c.layouts = dict(getattr(c, "layouts", {}))
+        mutated, outs, err, mem = c.observe()
+        n += 1
+        for mname in mutated:
+            viol.append({"key": f"aliasing:{c.key}:{mname}", "what": f"{c.entry} changed the caller's / previously stored '{mname}'",
+                         "case": c.describe()})
+        if err and "read-only" in err:
+            viol.append({"key": f"aliasing:{c.key}:readonly", "what": f"{c.entry} writes into a read-only input ({err})", "case": c.describe()})
+    ev2, v2 = history_search(ctx, ctx.scale(40, 400) * (3 if deep else 1), ctx.scale(12, 25))
+    viol += v2
+    seen, uniq = set(), []
+    for v in viol:
+        if v["key"] not in seen:
+            seen.add(v["key"])
+            uniq.append(v)
+    return {"evaluations": ev0 + n + ev2, "violations": uniq[:10],
+            "summary": f"{ev0} replayed findings; {n} calls of the real API over entry points x roles x layouts {layouts} x options with byte "
+                       f"snapshots of every caller array and stored result (read-only inputs make silent writes raise); {ev2} steps of random "
+                       f"store/transform/krige/condition histories in which every array ever passed, returned or stored must keep its bytes"}
